@@ -153,6 +153,22 @@ example (t : Str) (h : encode goodMap = .ok t) :=
 example (cp : ControlPoints ZC) (hc : collectSamples goodMap = .ok cp) : C13.Sorted cp :=
   decoded_collected_sorted _ _ _ good_decodes good_finishes cp hc
 
+/-- the taiko / mania form of the residual on the sample (kernel evaluation of the slider's curve and end time). -/
+theorem good_sliderEnd : SliderEndInLimit goodMap := by
+  have key : goodMap.hitObjects.all (fun h => match h.kind with
+      | .slider s => (match curveDist s with
+        | .ok d => decide (InLimit (h.startTime + (Scalar.ofInt (s.repeatCount + 1) : ZC) * d / s.velocity))
+        | .error _ => true)
+      | _ => true) = true := by decide +kernel
+  intro h hh s hk dist hd
+  have := List.all_eq_true.mp key h hh
+  simp only [hk, hd] at this
+  exact of_decide_eq_true this
+
+example : RepTimingMap ZC.Rep goodMap :=
+  decoded_repTimingMap_taiko_mania ZC.nanLaws ZC.tpClampLaws ZC.timingConsts DecodedInv.ZC.limitRep ZC.svLaws ZC.endTimeLaws
+    _ _ _ good_decodes good_finishes (Or.inl (by decide +kernel)) good_sliderEnd
+
 /-! ### the residual is needed: a collected time beyond the parse limit -/
 
 /-- the same slider at the last representable time: its end time `2147483647 + 6` is collected as a sample point. -/
